@@ -132,7 +132,11 @@ E_LIST = [0.0, 1e-12, 1e-3, 1e-1]
 CAPS = [1, 2, 3, 'big']
 FAMS = ['generic', 'lowqtt', 'decay', 'func', 'scaled']
 NONPOW = [3, 5, 6, 7, 9, 10, 12, 15, 17, 24, 31, 33, 48, 63, 65, 96, 100, 127,
-    129, 1000, 1023, 1025, 3 * 2**10, 2**20 + 1, 2**30 - 1]
+    129, 1000, 1023, 1025, 3 * 2**10, 2**20 + 1, 2**30 - 1] + \
+    [2**k + 1 for k in (40, 49, 50, 52, 53, 55, 60, 62)] + \
+    [2**k - 1 for k in (40, 49, 50, 52, 53, 55, 60, 62)] + \
+    [2**k + 2 for k in (50, 53, 58, 61)] + [3 * 2**k for k in (30, 50, 60)] + \
+    [2**53 + 2**10, 2**62 - 2**8, 2**62 + 2**9]
 ALL_ENTRIES_MAX = 4096
 N_SAMPLED = 500
 
@@ -543,6 +547,8 @@ def run_imap_reject(case, ctx, teneva):
                 f'{np.asarray(out).tolist()}')
     # positive control: the neighbouring power of two is accepted
     q = int(n).bit_length()
+    if q > 61:
+        return          # 2^q is beyond what an index array can address
     out = teneva.ind_tt_to_qtt([1], 2 ** q)
     ctx.check('imap-bits', _is_int_array(out, (q,))
         and out.tolist() == [1] + [0] * (q - 1),
